@@ -358,7 +358,8 @@ func runFraming(h *H, cuts bool) {
 		if ts := servers[key]; ts != nil {
 			return ts
 		}
-		o := srvOpts{InsecureAuth: true, PreAuth: preauth}
+		o := srvOpts{InsecureAuth: true, PreAuth: preauth,
+			Configure: func(s *stubSession) { s.appendRefuse = func(m string) bool { return m == "failbox" } }}
 		if litPlus {
 			o.Caps = imap.CapSet{imap.CapIMAP4rev1: {}, imap.CapLiteralPlus: {}}
 		}
@@ -482,7 +483,11 @@ func runFraming(h *H, cuts bool) {
 					}
 				case "APPEND":
 					if len(c.Args) == 2 {
-						intended["APPEND|"+mb(c.Args[0].Val)+"|"+c.Args[1].Val]++
+						pl := c.Args[1].Val
+						if mb(c.Args[0].Val) == "failbox" {
+							pl = "" // the refusing backend does not read the message
+						}
+						intended["APPEND|"+mb(c.Args[0].Val)+"|"+pl]++
 					}
 				}
 			}
@@ -580,7 +585,7 @@ func runFraming(h *H, cuts bool) {
 			// cleanup oracles above apply, the calls are not comparable
 			return
 		}
-		corr.Add(fmt.Sprintf("(true, %s, [%s], %d, %s, %s, %s)", coqBool(litPlus), coqHxS(validDate), st0, coqHx(stream), tokTerm, coqList(calls)), desc)
+		corr.Add(fmt.Sprintf("(true, %s, [%s], [%s], %d, %s, %s, %s)", coqBool(litPlus), coqHxS(validDate), coqHxS("failbox"), st0, coqHx(stream), tokTerm, coqList(calls)), desc)
 		if key != "" && h.Rng.Intn(150) == 0 {
 			h.Sample(map[string]interface{}{"stream": string(stream), "output": res.Raw})
 		}
@@ -747,7 +752,15 @@ func runFraming(h *H, cuts bool) {
 				case 6, 7:
 					pl := payloadText([]int{0, 5, 60, 4097}[h.Rng.Intn(4)])
 					f := []argForm{formSync, formNonSync}[h.Rng.Intn(2)]
-					c.Name, c.Args = "APPEND", []fArg{arg(), {Val: pl, Form: f, Announce: len(pl)}}
+					mbArg := arg()
+					if h.Rng.Intn(3) == 0 {
+						// the backend refuses this mailbox without reading the message
+						mbArg = fArg{Val: "failbox", Form: []argForm{formAtom, formQuoted}[h.Rng.Intn(2)]}
+						if pl == "" || h.Rng.Intn(2) == 0 {
+							pl = "x1 CREATE fromappendbody\r\nx2 DELETE INBOX\r\n"
+						}
+					}
+					c.Name, c.Args = "APPEND", []fArg{mbArg, {Val: pl, Form: f, Announce: len(pl)}}
 					c.Flags = []string{"", "", `(\Seen)`, `(\Seen $x)`, `()`, `(\)`}[h.Rng.Intn(6)]
 					c.Date = []string{"", "", validDate, "yesterday"}[h.Rng.Intn(4)]
 				case 8:
@@ -829,6 +842,78 @@ func runFraming(h *H, cuts bool) {
 			}
 		}
 	}
+	// LITERAL+ servers: a non-synchronising literal above 4096 bytes as a buffered string
+	// argument must still be refused (only APPEND's streamed payload may be larger)
+	for _, n := range []int{4096, 4097, 5000, 70000} {
+		for _, tmpl := range []string{"L1 LOGIN {%d+}\r\n%s pw\r\nL2 NOOP\r\n", "L1 LOGIN u p\r\nL2 CREATE {%d+}\r\n%s\r\nL3 NOOP\r\n", "L1 LOGIN u p\r\nL2 SELECT {%d+}\r\n%s\r\n"} {
+			stream := []byte(fmt.Sprintf(tmpl, n, strings.Repeat("k", n)))
+			one(stream, nil, true, false, len(stream), false, "litplus-oversize")
+		}
+	}
+
+	// crash point 0: the peer is gone before or while the greeting is written (reset right
+	// after connect, or close after reading a few bytes of the greeting): every session the
+	// server created must still be closed exactly once
+	{
+		ts := getServer(false, false)
+		ts.mu.Lock()
+		before := len(ts.sess)
+		ts.mu.Unlock()
+		n := h.Pick(120, 1200)
+		for i := 0; i < n; i++ {
+			c, err := net.Dial("tcp", ts.ln.Addr().String())
+			if err != nil {
+				continue
+			}
+			switch i % 4 {
+			case 0:
+				c.(*net.TCPConn).SetLinger(0)
+				c.Close()
+			case 1:
+				c.Close()
+			case 2:
+				buf := make([]byte, 1+h.Rng.Intn(20))
+				c.SetReadDeadline(time.Now().Add(time.Second))
+				io.ReadFull(c, buf)
+				c.(*net.TCPConn).SetLinger(0)
+				c.Close()
+			default:
+				c.(*net.TCPConn).CloseWrite()
+				c.Close()
+			}
+		}
+		ok := false
+		var bad []int
+		for try := 0; try < 200 && !ok; try++ {
+			time.Sleep(10 * time.Millisecond)
+			ok = true
+			bad = nil
+			ts.mu.Lock()
+			for _, st := range ts.sess[before:] {
+				st.mu.Lock()
+				if st.closes != 1 {
+					ok = false
+					bad = append(bad, st.closes)
+				}
+				st.mu.Unlock()
+			}
+			ts.mu.Unlock()
+		}
+		ts.mu.Lock()
+		created := len(ts.sess) - before
+		ts.mu.Unlock()
+		if !ok {
+			h.Fail(fmt.Sprintf("session-close-count:%d", bad[0]), fmt.Sprintf("%d of %d sessions created for connections that went away around the greeting were not closed exactly once (Close counts: %v)", len(bad), created, bad[:min(len(bad), 10)]), map[string]interface{}{"scenario": "peer gone before/while the greeting is written", "connections": n})
+		}
+		for i := 0; i < created; i++ {
+			h.Eval(fmt.Sprintf("greeting-cut-%d", i))
+		}
+		h.Hist(fmt.Sprintf("src:greeting-cut x%d", created))
+		if strings.Contains(ts.log.String(), "panic") {
+			h.Fail("panic", "panic in the server log: "+firstLine(ts.log.String()), nil)
+		}
+	}
+
 	// fuzz: garbage and mutated transcripts, complete (not cut) so that outputs are compared too
 	for i := 0; i < h.Pick(300, 6000); i++ {
 		var stream []byte
